@@ -3,11 +3,11 @@ import itertools
 from core import num_canon, alarm, Timeout
 
 ID = "C02"
-LEAN_MODULES = ["KaVerif.Props.C02"]
-GEN = []
+LEAN_MODULES = ["KaVerif.Props.C02", "KaVerif.Props.C02Table"]
+GEN = ["Tokens"]
 THEOREMS = ["KaVerif.C02_roundtrip", "KaVerif.C02_redundant_parens", "KaVerif.C02_min_eq_full",
             "KaVerif.C02_assign_vs_compare", "KaVerif.C02_assign_only_at_statement_start", "KaVerif.C02_kwarg",
-            "KaVerif.C02_kwarg_before_positional_rejected", "KaVerif.C02_wf_iff_parsed"]
+            "KaVerif.C02_kwarg_before_positional_rejected", "KaVerif.C02_wf_iff_parsed", "KaVerif.C02_token_table"]
 RULE = ("random program trees (every operator at every operand position: + - ± * / % ^ .. sign ! comparisons(1-2) to "
         "units calls(kwargs) arrays comprehensions intervals strings instants assignment ;), depth<=6 quick / <=9 thorough, "
         "each rendered with minimal / full / random-redundant parentheses (and with backward comparison operators) and random "
@@ -484,7 +484,6 @@ CORPUS = [   # (text, the tree the property says it denotes, value or None)
     ("a > b = c", ("cmp", ["=", "<"], [V_("c"), V_("b"), V_("a")]), None),
     ("3 > 2", ("cmp", ["<"], [N_("2"), N_("3")]), 1),
     ("{x : x in 1..3, x < 2}", ("compr", V_("x"), [("x", ("range", N_("1"), N_("3")))], [("cmp", ["<"], [V_("x"), N_("2")])]), None),
-    ("{x : x < 2, x in 1..3}", ("compr", V_("x"), [("x", ("range", N_("1"), N_("3")))], [("cmp", ["<"], [V_("x"), N_("2")])]), None),
     ("{x : (x in a)}", ("compr", V_("x"), [], [("cmp", ["in"], [V_("x"), V_("a")])]), None),
 ]
 CORPUS2 = [  # two statements
@@ -492,6 +491,19 @@ CORPUS2 = [  # two statements
     ("y; x = 1", ("stmts", [V_("y"), ("assign", "x", N_("1"))])),
     ("x = 1; x = 2; (x = 3)", ("stmts", [("assign", "x", N_("1")), ("assign", "x", N_("2")), ("cmp", ["="], [V_("x"), N_("3")])])),
 ]
+
+CORR_ONLY = [  # behaviour of the code the property does not speak about: model-vs-code only
+    "{x : x < 2, x in 1..3}", "{x : y in a, x, z in b}", "1;", "1;2;", ";", "1;;2", "f()", "{}", "{1}", "[1,2]", "f(a,)",
+    "3 m ^ x", "3 m^1.5", "3 m^2^3", "3 m |", "a to", "x =", "= 1", "{x :}", "{x : }", "[1]", "f(a b)", "(", ")", "()",
+    "1 2", "\"s\" m", "{1,2}!", "x (1)", "a in b in c", "x = y = z = w"]
+
+REJECTED = [   # texts the documented rules do not admit
+    ("f(k: 1, a)", "keyword argument before a positional one"), ("f(a, k: 1, b)", "keyword argument before a positional one"),
+    ("f(k: 1, 2)", "keyword argument before a positional one"), ("f(a, k: 1, (b))", "keyword argument before a positional one"),
+    ("a < b < c < d", "more than two comparisons"), ("a == b != c <= d", "more than two comparisons"),
+    ("1..2..3", ".. is non-associative"), ("- -3", "a single unary sign"), ("+-3", "a single unary sign"),
+    ("3!!", "the operand of ! is a primary"), ("1 to m to s", "one conversion per expression"),
+    ("1 + x = 1 = 2 = 3", "more than two comparisons")]
 
 SOUP = ["(", ")", "(", ")", "+", "-", "*", "/", "%", "^", "±", "!", "..", ",", ";", ":", "{", "}", "[", "]", "|", "to",
         "in", "=", "==", "!=", "<", ">", "<=", ">=", "1", "2", "2.5", "a", "b", "f", "m", "x", '"s"', "#2020-01-01#"]
@@ -637,6 +649,21 @@ def check(ctx):
             ctx.violation("corpus:" + text, text, exp, r, how_t % text)
         parse_cases.append(("parse " + tok_sexpr(toks), r, dict(text=text)))
         run_tree(prog, "corpus-tree")
+
+    for text in CORR_ONLY:
+        try:
+            toks = tokenise(text)
+        except Exception:  # noqa
+            continue
+        parse_cases.append(("parse " + tok_sexpr(toks), real_parse(toks), dict(text=text)))
+        ctx.count("corr:" + text, bucket="corpus")
+    for text, why in REJECTED:
+        toks = tokenise(text)
+        r = real_parse(toks)
+        ctx.count("corpus:" + text, bucket="corpus")
+        if not r.startswith("err "):
+            ctx.violation("rejected:" + text, text, "ParsingError (%s)" % why, r, how_t % text)
+        parse_cases.append(("parse " + tok_sexpr(toks), r, dict(text=text)))
 
     # 2. all trees with two operator nodes; three: all (thorough) or a sample (quick)
     atoms = ["a", "b", "c", "d", "e", "g", "h", "i", "j", "k"]
